@@ -16,7 +16,7 @@ RULE = ("(a) component: time_in_range and the schedule functions built by time_r
         "in_shift(s, e, x) = (s <= x < e) if s <= e else (x >= s or x < e) over generated (s, e, x) concentrated on boundaries (x in {s-1, s, s+1, e-1, e, e+1}, "
         "midnight, s = e); (b) whole runs of generated file-based scenarios with a generated schedules.csv (wrapping shifts, shifts touching step "
         "boundaries, empty shifts), 1-4 human drivers with home bases next to autonomous vehicles (ids sorting before, between and after theirs), start times anywhere in the day, step lengths "
-        "60-3600 s incl. ones that do not divide the day, 25-50 h, a request stream over the whole run, built-in dispatcher: after step k (beginning at "
+        "60-3600 s incl. ones that do not divide the day, a quarter of the scenarios loaded a second time from the same path after every shift was displaced, 25-50 h, a request stream over the whole run, built-in dispatcher: after step k (beginning at "
         "T_k) driver.available == in_shift(T_k mod 86400); an on/off schedule event in step k iff availability differs from step k-1 (initially "
         "unavailable); a DispatchTripInstruction reported for a human-driven vehicle in step k implies in_shift(T_k); the Dispatcher (recording proxy) "
         "never emits an instruction for a vehicle whose driver is unavailable in the state it was handed. non-trivial (b) = run crossing midnight with "
